@@ -12,6 +12,8 @@ package tree
 import (
 	"context"
 	"fmt"
+	"os"
+	"path/filepath"
 	"sort"
 	"strings"
 	"testing"
@@ -19,10 +21,14 @@ import (
 	"github.com/beevik/etree"
 	"github.com/openconfig/ygot/ygot"
 	"github.com/sdcio/data-server/mocks/mockcacheclient"
+	"github.com/sdcio/data-server/mocks/mockschemaclientbound"
 	"github.com/sdcio/data-server/pkg/cache"
 	"github.com/sdcio/data-server/pkg/utils"
 	"github.com/sdcio/data-server/pkg/utils/testhelper"
 	sdcio_schema "github.com/sdcio/data-server/tests/sdcioygot"
+	sConfig "github.com/sdcio/schema-server/pkg/config"
+	"github.com/sdcio/schema-server/pkg/schema"
+	"github.com/sdcio/schema-server/pkg/store/memstore"
 	sdcpb "github.com/sdcio/sdc-protos/sdcpb"
 	"go.uber.org/mock/gomock"
 	"google.golang.org/protobuf/proto"
@@ -151,7 +157,7 @@ func vreTvString(tv *sdcpb.TypedValue) (string, bool) {
 	case *sdcpb.TypedValue_IdentityrefVal:
 		return v.IdentityrefVal.GetValue(), true
 	case *sdcpb.TypedValue_EmptyVal:
-		return "", false
+		return "<presence>", false
 	}
 	return utils.TypedValueToString(tv), false
 }
@@ -374,7 +380,11 @@ func vreFromXML(doc *etree.Element, listKeys map[string][]string, withNs, useRem
 				if _, seen := leaflists[cip]; !seen {
 					order = append(order, cip)
 				}
-				leaflists[cip] = append(leaflists[cip], c.Text())
+				txt := c.Text()
+				if txt == "" {
+					txt = "<presence>" // a childless element without text: a bare presence container (or a leaf of type empty)
+				}
+				leaflists[cip] = append(leaflists[cip], txt)
 				writes = true
 				continue
 			}
@@ -474,6 +484,169 @@ func vreCompare(ref, got *vreDen, identity map[string]bool, withDeletes, onlyNew
 	return out, known
 }
 
+const vreYang2 = `module vrpresence {
+  yang-version 1.1;
+  namespace "urn:verif/presence";
+  prefix vrp;
+
+  container system {
+    leaf hostname { type string; }
+    container lldp {
+      presence "enables lldp";
+      leaf admin-state { type string; default "enable"; }
+    }
+  }
+  list interface {
+    key "name";
+    leaf name { type string; }
+    leaf mtu { type uint16; }
+    container ipv4 {
+      presence "enables ipv4";
+      leaf admin-state { type string; default "enable"; }
+    }
+  }
+}
+`
+
+// vreSchema2 loads the module above into an in-memory schema store and returns a bound schema client backed by it (the
+// way testhelper.GetSchemaClientBound does for tests/schema).
+func vreSchema2(t *testing.T, mockCtrl *gomock.Controller) *mockschemaclientbound.MockSchemaClientBound {
+	dir := t.TempDir()
+	if err := os.WriteFile(filepath.Join(dir, "vrpresence.yang"), []byte(vreYang2), 0o644); err != nil {
+		t.Fatal(err)
+	}
+	sc := &sConfig.SchemaConfig{Name: "vrpresence", Vendor: "verif", Version: "v0.0.0", Files: []string{dir}}
+	sch, err := schema.NewSchema(sc)
+	if err != nil {
+		t.Fatal(err)
+	}
+	store := memstore.New()
+	if err := store.AddSchema(sch); err != nil {
+		t.Fatal(err)
+	}
+	id := &sdcpb.Schema{Name: sc.Name, Vendor: sc.Vendor, Version: sc.Version}
+	m := mockschemaclientbound.NewMockSchemaClientBound(mockCtrl)
+	m.EXPECT().GetSchemaSdcpbPath(gomock.Any(), gomock.Any()).AnyTimes().DoAndReturn(
+		func(ctx context.Context, path *sdcpb.Path) (*sdcpb.GetSchemaResponse, error) {
+			return store.GetSchema(ctx, &sdcpb.GetSchemaRequest{Path: path, Schema: id})
+		})
+	m.EXPECT().ToPath(gomock.Any(), gomock.Any()).AnyTimes().DoAndReturn(
+		func(ctx context.Context, path []string) (*sdcpb.Path, error) {
+			pr, err := store.ToPath(ctx, &sdcpb.ToPathRequest{PathElement: path, Schema: id})
+			if err != nil {
+				return nil, err
+			}
+			return pr.GetPath(), nil
+		})
+	m.EXPECT().GetSchemaSlicePath(gomock.Any(), gomock.Any()).AnyTimes().DoAndReturn(
+		func(ctx context.Context, path []string) (*sdcpb.GetSchemaResponse, error) {
+			p, err := m.ToPath(ctx, path)
+			if err != nil {
+				return nil, err
+			}
+			return store.GetSchema(ctx, &sdcpb.GetSchemaRequest{Path: p, Schema: id})
+		})
+	return m
+}
+
+// vreRun builds the tree of one transaction (stored intent marked for removal, new revision, running = stored) and
+// compares the renderings.
+func vreRun(t *testing.T, ctx context.Context, scb *mockschemaclientbound.MockSchemaClientBound, existing, revision []*sdcpb.Update, label string, report func(fn, clause, in, why string), nJ, nX, nP *int) {
+	fnJ, fnX, fnP := "(*tree.sharedEntryAttributes).toJsonInternal", "(*tree.sharedEntryAttributes).toXmlInternal", "(*tree.RootEntry).ToProtoUpdates"
+	mockCtrl := gomock.NewController(t)
+	defer mockCtrl.Finish()
+	owner := "owner1"
+	ccMock := mockcacheclient.NewMockClient(mockCtrl)
+	testhelper.ConfigureCacheClientMock(t, ccMock, []*cache.Update{}, []*cache.Update{}, []*cache.Update{}, [][]string{})
+	root, err := NewTreeRoot(ctx, NewTreeContext(NewTreeCacheClient("dev1", ccMock), scb, owner))
+	if err != nil {
+		t.Fatal(err)
+	}
+	fExisting, fNew := NewUpdateInsertFlags(), NewUpdateInsertFlags()
+	fNew.SetNewFlag()
+	if err := vreAdd(ctx, root, existing, fExisting, owner, 5); err != nil {
+		t.Fatal(err)
+	}
+	root.markOwnerDelete(owner, false)
+	if err := vreAdd(ctx, root, revision, fNew, owner, 5); err != nil {
+		t.Fatal(err)
+	}
+	if err := vreAdd(ctx, root, existing, fExisting, RunningIntentName, RunningValuesPrio); err != nil {
+		t.Fatal(err)
+	}
+	root.FinishInsertionPhase(ctx)
+
+	listKeys := map[string][]string{}
+	full, err := root.ToProtoUpdates(ctx, false)
+	if err != nil {
+		t.Fatal(err)
+	}
+	dels, err := root.ToProtoDeletes(ctx)
+	if err != nil {
+		t.Fatal(err)
+	}
+	for _, u := range full {
+		vreLearnKeys(listKeys, u.GetPath())
+	}
+	for _, p := range dels {
+		vreLearnKeys(listKeys, p)
+	}
+	// the running configuration knows the lists of entries that are removed as a whole
+	for _, u := range existing {
+		vreLearnKeys(listKeys, u.GetPath())
+	}
+	for _, onlyNew := range []bool{true, false} {
+		in := fmt.Sprintf("%s,onlyNewOrUpdated=%v", label, onlyNew)
+		upds := full
+		if onlyNew {
+			if upds, err = root.ToProtoUpdates(ctx, true); err != nil {
+				t.Fatal(err)
+			}
+		}
+		ref, identity := vreFromProto(upds, dels)
+		*nP++
+		for _, e := range ref.errs {
+			report(fnP, "cross_encoding", in, e)
+		}
+		for name, f := range map[string]func(bool) (any, error){"json": root.ToJson, "json_ietf": root.ToJsonIETF} {
+			*nJ++
+			j, err := f(onlyNew)
+			if err != nil {
+				report(fnJ, "cross_encoding", in, name+": "+err.Error())
+				continue
+			}
+			bad, known := vreCompare(ref, vreFromJSON(j, listKeys), identity, false, onlyNew)
+			for _, w := range bad {
+				report(fnJ, "cross_encoding", in+",encoding="+name, w)
+			}
+			for _, w := range known {
+				report(fnP, "cross_encoding.known", in+",encoding="+name, w)
+			}
+		}
+		for opt := 0; opt < 8; opt++ {
+			*nX++
+			honorNs, opNs, useRemove := opt&1 != 0, opt&2 != 0, opt&4 != 0
+			doc, err := root.ToXML(onlyNew, honorNs, opNs, useRemove)
+			if err != nil {
+				report(fnX, "cross_encoding", in, "xml: "+err.Error())
+				continue
+			}
+			xin := fmt.Sprintf("%s,honorNamespace=%v,operationWithNamespace=%v,useOperationRemove=%v", in, honorNs, opNs, useRemove)
+			bad, known := vreCompare(ref, vreFromXML(&doc.Element, listKeys, opNs, useRemove), identity, true, onlyNew)
+			for _, w := range bad {
+				report(fnX, "cross_encoding", xin, w)
+			}
+			for _, w := range known {
+				if strings.Contains(w, "operation=") {
+					report(fnX, "cross_encoding.known", xin, w)
+				} else {
+					report(fnP, "cross_encoding.known", xin, w)
+				}
+			}
+		}
+	}
+}
+
 func TestVerifReplayEncodings(t *testing.T) {
 	fnJ, fnX, fnP := "(*tree.sharedEntryAttributes).toJsonInternal", "(*tree.sharedEntryAttributes).toXmlInternal", "(*tree.RootEntry).ToProtoUpdates"
 	var scenarios [][]int
@@ -512,24 +685,11 @@ func TestVerifReplayEncodings(t *testing.T) {
 		if err != nil {
 			t.Fatal(err)
 		}
-		owner := "owner1"
-		ccMock := mockcacheclient.NewMockClient(mockCtrl)
-		testhelper.ConfigureCacheClientMock(t, ccMock, []*cache.Update{}, []*cache.Update{}, []*cache.Update{}, [][]string{})
 		converter := utils.NewConverter(scb)
-		root, err := NewTreeRoot(ctx, NewTreeContext(NewTreeCacheClient("dev1", ccMock), scb, owner))
-		if err != nil {
-			t.Fatal(err)
-		}
-		fExisting, fNew := NewUpdateInsertFlags(), NewUpdateInsertFlags()
-		fNew.SetNewFlag()
 		existing, err := vreExpand(ctx, vreBase(), converter)
 		if err != nil {
 			t.Fatal(err)
 		}
-		if err := vreAdd(ctx, root, existing, fExisting, owner, 5); err != nil {
-			t.Fatal(err)
-		}
-		root.markOwnerDelete(owner, false)
 		c := vreBase()
 		names := []string{}
 		for _, i := range sc {
@@ -540,83 +700,56 @@ func TestVerifReplayEncodings(t *testing.T) {
 		if err != nil {
 			t.Fatal(err)
 		}
-		if err := vreAdd(ctx, root, revision, fNew, owner, 5); err != nil {
-			t.Fatal(err)
-		}
-		if err := vreAdd(ctx, root, existing, fExisting, RunningIntentName, RunningValuesPrio); err != nil {
-			t.Fatal(err)
-		}
-		root.FinishInsertionPhase(ctx)
-
-		listKeys := map[string][]string{}
-		full, err := root.ToProtoUpdates(ctx, false)
-		if err != nil {
-			t.Fatal(err)
-		}
-		dels, err := root.ToProtoDeletes(ctx)
-		if err != nil {
-			t.Fatal(err)
-		}
-		for _, u := range full {
-			vreLearnKeys(listKeys, u.GetPath())
-		}
-		for _, p := range dels {
-			vreLearnKeys(listKeys, p)
-		}
-		// the running configuration knows the lists of entries that are removed as a whole
-		for _, u := range existing {
-			vreLearnKeys(listKeys, u.GetPath())
-		}
-		for _, onlyNew := range []bool{true, false} {
-			in := fmt.Sprintf("edits=%s,onlyNewOrUpdated=%v", strings.Join(names, "+"), onlyNew)
-			upds := full
-			if onlyNew {
-				if upds, err = root.ToProtoUpdates(ctx, true); err != nil {
+		vreRun(t, ctx, scb, existing, revision, "edits="+strings.Join(names, "+"), report, &nJ, &nX, &nP)
+		mockCtrl.Finish()
+	}
+	// a second schema, for shapes the test schema does not have: presence containers that hold nothing but a defaulted
+	// leaf, below a plain container and below a list entry, given up while their parents stay
+	for mask := 0; mask < 16; mask++ {
+		ctx := context.Background()
+		mockCtrl := gomock.NewController(t)
+		scb := vreSchema2(t, mockCtrl)
+		mk := func(m int) []*sdcpb.Update {
+			type pv struct {
+				p []string
+				v *sdcpb.TypedValue
+			}
+			str := func(x string) *sdcpb.TypedValue {
+				return &sdcpb.TypedValue{Value: &sdcpb.TypedValue_StringVal{StringVal: x}}
+			}
+			empty := &sdcpb.TypedValue{Value: &sdcpb.TypedValue_EmptyVal{}}
+			mtu := uint64(1500)
+			if m&4 != 0 {
+				mtu = 9000
+			}
+			l := []pv{{[]string{"system", "hostname"}, str("r1")}, {[]string{"interface", "eth0", "name"}, str("eth0")},
+				{[]string{"interface", "eth0", "mtu"}, &sdcpb.TypedValue{Value: &sdcpb.TypedValue_UintVal{UintVal: mtu}}}}
+			if m&1 == 0 {
+				l = append(l, pv{[]string{"system", "lldp"}, empty})
+			}
+			if m&2 == 0 {
+				l = append(l, pv{[]string{"interface", "eth0", "ipv4"}, empty})
+			}
+			if m&8 != 0 {
+				l = append(l, pv{[]string{"interface", "eth1", "name"}, str("eth1")}, pv{[]string{"interface", "eth1", "ipv4"}, empty})
+			}
+			var out []*sdcpb.Update
+			for _, x := range l {
+				sp, err := scb.ToPath(ctx, x.p)
+				if err != nil {
 					t.Fatal(err)
 				}
+				out = append(out, &sdcpb.Update{Path: sp, Value: x.v})
 			}
-			ref, identity := vreFromProto(upds, dels)
-			nP++
-			for _, e := range ref.errs {
-				report(fnP, "cross_encoding", in, e)
-			}
-			for name, f := range map[string]func(bool) (any, error){"json": root.ToJson, "json_ietf": root.ToJsonIETF} {
-				nJ++
-				j, err := f(onlyNew)
-				if err != nil {
-					report(fnJ, "cross_encoding", in, name+": "+err.Error())
-					continue
-				}
-				bad, known := vreCompare(ref, vreFromJSON(j, listKeys), identity, false, onlyNew)
-				for _, w := range bad {
-					report(fnJ, "cross_encoding", in+",encoding="+name, w)
-				}
-				for _, w := range known {
-					report(fnP, "cross_encoding.known", in+",encoding="+name, w)
-				}
-			}
-			for opt := 0; opt < 8; opt++ {
-				nX++
-				honorNs, opNs, useRemove := opt&1 != 0, opt&2 != 0, opt&4 != 0
-				doc, err := root.ToXML(onlyNew, honorNs, opNs, useRemove)
-				if err != nil {
-					report(fnX, "cross_encoding", in, "xml: "+err.Error())
-					continue
-				}
-				xin := fmt.Sprintf("%s,honorNamespace=%v,operationWithNamespace=%v,useOperationRemove=%v", in, honorNs, opNs, useRemove)
-				bad, known := vreCompare(ref, vreFromXML(&doc.Element, listKeys, opNs, useRemove), identity, true, onlyNew)
-				for _, w := range bad {
-					report(fnX, "cross_encoding", xin, w)
-				}
-				for _, w := range known {
-					if strings.Contains(w, "operation=") {
-						report(fnX, "cross_encoding.known", xin, w)
-					} else {
-						report(fnP, "cross_encoding.known", xin, w)
-					}
-				}
+			return out
+		}
+		var names []string
+		for i, n := range []string{"give-up-presence-container", "give-up-presence-container-in-list-entry", "update-leaf", "add-entry-with-presence-container"} {
+			if mask&(1<<i) != 0 {
+				names = append(names, n)
 			}
 		}
+		vreRun(t, ctx, scb, mk(0), mk(mask), "schema=presence,edits="+strings.Join(names, "+"), report, &nJ, &nX, &nP)
 		mockCtrl.Finish()
 	}
 	fmt.Printf("REPLAY-CASES fn=%s n=%d\n", fnJ, nJ)
